@@ -369,7 +369,7 @@ func c14KnownShape(format string, want any) string {
 				m, _ := row.(map[string]any)
 				ks := sortedKeys(m)
 				if len(ks) > 0 {
-					if s, _ := m[ks[0]].(string); strings.HasPrefix(s, "#") {
+					if s, _ := m[ks[0]].(string); strings.HasPrefix(s, "#") && !strings.ContainsAny(s, "\",\n\r") {
 						return "hash-first-cell"
 					}
 				}
@@ -387,6 +387,134 @@ func c14KnownShape(format string, want any) string {
 		}
 	}
 	return ""
+}
+
+// c14MatchesKnownDeviation: a document carrying a known-finding shape is only
+// reported as that finding when the result is what the recorded deviation
+// produces; any other wrong result is an ordinary violation
+func c14MatchesKnownDeviation(format, shape string, want, got any, failed bool) bool {
+	arr, _ := want.([]any)
+	switch format + ":" + shape {
+	case "jsonl:nested-array-element":
+		if failed {
+			return false
+		}
+		// the reader starts in table mode: array lines before the first
+		// non-array line become rows of strings (fmt.Sprint of each member);
+		// arrays after it keep their types.
+		var lead []any
+		i := 0
+		for ; i < len(arr); i++ {
+			inner, ok := arr[i].([]any)
+			if !ok {
+				break
+			}
+			row := make([]any, len(inner))
+			for j, m := range inner {
+				switch t := m.(type) {
+				case float64, bool:
+					row[j] = fmt.Sprint(t)
+				default:
+					row[j] = m
+				}
+			}
+			lead = append(lead, row)
+		}
+		dev := append([]any{}, lead...)
+		if i < len(arr) {
+			dev = append(dev, arr[i:]...)
+		}
+		return reflect.DeepEqual(any(dev), got)
+	case "jsonl:null-element":
+		return reflect.DeepEqual(got, any([]any{nil}))
+	case "csv:hash-first-cell", "csv:single-column-empty-cell":
+		if failed {
+			return format+":"+shape == "csv:hash-first-cell"
+		}
+		var dev []any
+		for _, row := range arr {
+			m, _ := row.(map[string]any)
+			ks := sortedKeys(m)
+			first, _ := m[ks[0]].(string)
+			if strings.HasPrefix(first, "#") && !strings.ContainsAny(first, "\",\n\r") {
+				continue // written unquoted, so the reader takes the line for a comment
+			}
+			if len(m) == 1 && first == "" {
+				continue
+			}
+			dev = append(dev, row)
+		}
+		g, _ := got.([]any)
+		if len(dev) == 0 && len(g) == 0 {
+			return true
+		}
+		return reflect.DeepEqual(any(dev), got)
+	case "toml:float-over-7-digits":
+		if failed {
+			return false
+		}
+		var conv func(v any) any
+		conv = func(v any) any {
+			switch t := v.(type) {
+			case float64:
+				f, _ := strconv.ParseFloat(strconv.FormatFloat(t, 'f', -1, 32), 64)
+				return f
+			case []any:
+				o := make([]any, len(t))
+				for i := range t {
+					o[i] = conv(t[i])
+				}
+				return o
+			case map[string]any:
+				o := map[string]any{}
+				for k, e := range t {
+					o[k] = conv(e)
+				}
+				return o
+			}
+			return v
+		}
+		d := conv(want)
+		if reflect.DeepEqual(d, got) {
+			return true
+		}
+		// the library keeps some floats exact: accept any per-number mix of exact and float32-short forms
+		var mix func(w, g any) bool
+		mix = func(w, g any) bool {
+			switch t := w.(type) {
+			case float64:
+				gf, ok := g.(float64)
+				f32, _ := strconv.ParseFloat(strconv.FormatFloat(t, 'f', -1, 32), 64)
+				return ok && (gf == t || gf == f32)
+			case []any:
+				ga, ok := g.([]any)
+				if !ok || len(ga) != len(t) {
+					return false
+				}
+				for i := range t {
+					if !mix(t[i], ga[i]) {
+						return false
+					}
+				}
+				return true
+			case map[string]any:
+				gm, ok := g.(map[string]any)
+				if !ok || len(gm) != len(t) {
+					return false
+				}
+				for k, e := range t {
+					ge, has := gm[k]
+					if !has || !mix(e, ge) {
+						return false
+					}
+				}
+				return true
+			}
+			return reflect.DeepEqual(w, g)
+		}
+		return mix(want, got)
+	}
+	return true // toml key quoting and yaml multi-line strings: no precise model of the deviation
 }
 
 func init() {
@@ -499,7 +627,7 @@ func init() {
 				x.Count("documents_with_known_finding_shape "+e.Format+":"+shape, 1)
 			}
 			err := json.Unmarshal(run.Stdout, &got)
-			if shape != "" && (err != nil || run.Exit != 0 || !reflect.DeepEqual(want, got)) {
+			if shape != "" && (err != nil || run.Exit != 0 || !reflect.DeepEqual(want, got)) && c14MatchesKnownDeviation(e.Format, shape, want, got, err != nil || run.Exit != 0) {
 				x.Viol("format:"+e.Format+":known-shape:"+shape, fmt.Sprintf("%s -> format %s -> format json gave exit=%d %s; stderr=%q", trunc(e.Doc, 400), e.Format, run.Exit, trunc(string(run.Stdout), 300), trunc(string(run.Stderr), 200)), c, string(run.Stdout), want)
 				return
 			}
